@@ -598,7 +598,7 @@ func c46GenAlerts(c *hlib.Ctx, next *int, cap int) string {
 
 func genC46(c *hlib.Ctx) {
 	r := c.R
-	n := c.N(500, 6000)
+	n := c.N(500, 15000)
 	for i := 0; i < n; i++ {
 		cap := []int{0, 1, 2, 3, 4, 5, 8}[r.Intn(7)]
 		mb := []int{1, 1, 2, 3, 10}[r.Intn(5)]
